@@ -41,6 +41,9 @@ def shapes(k, m):
     out.append(("trywrap", "(try (range(%d), @M) catch error)" % k, "null"))
     out.append(("inner-first", "(range(%d) | first(., @M)), @M" % k, "null"))
     out.append(("alt", "((range(%d), @M) // 100)" % k, "null"))
+    out.append(("foreach-multi", "foreach 0 as $i (null; (range(%d), @M))" % k, "null"))
+    out.append(("foreach3-multi", "foreach 0 as $i (null; (range(%d), @M); .)" % k, "null"))
+    out.append(("foreach-multi-last", "foreach (0, 1) as $i (null; if $i == 0 then 7 else (range(%d), @M) end; if $i == 0 then empty else . end)" % k, "null"))
     return out
 
 
@@ -177,6 +180,16 @@ def gen(ctx):
     T.append(("first(label $l | (., input))", 1, [1], 1))
     T.append(("first(def f: ., input; f)", 1, [1], 1))
     T.append(("first({a: (., input)})", 1, [{"a": 1}], 1))
+    # the update of foreach yields several outputs: the next one is not computed before the state is delivered
+    T.append(("first(foreach 0 as $x (0; (5, input)))", 1, [5], 1))
+    T.append(("first(foreach 0 as $x (0; (5, input); .))", 1, [5], 1))
+    T.append(("limit(2; foreach (1, 2) as $x (0; (. + $x, input)))", 2, [1, 3], 1))
+    T.append(("[limit(1; foreach (1, 2) as $x (0; (. + $x, input)))]", 1, [[1]], 1))
+    # a break ends its label also below tail calls and inside a label entered later: what follows is not run
+    T.append(("[label $o | ((def f: if . < 3 then (. + 1 | f) else (label $i | (., break $o)) end; f), input)]", 1, [[3]], 1))
+    T.append(("[label $o | ((def f: if . < 3 then ., (. + 1 | f) else (label $i | break $o) end; f), input)]", 1, [[1, 2]], 1))
+    T.append(("[label $o | (recurse(if . < 3 then . + 1 else (label $i | break $o) end), input)]", 1, [[1, 2, 3]], 1))
+    T.append(("[label $o | (first(def f: if . < 3 then (. + 1 | f) else (., break $o) end; f), input)]", 1, [[3, 2]], 2))
     for j in range(1, 5):
         T.append(("limit(%d; inputs)" % j, j, list(range(2, 2 + j)), j + 1))
         T.append(("[limit(%d; inputs)]" % j, 1, [list(range(2, 2 + j))], j + 1))
